@@ -10,3 +10,6 @@ open HmcVerif.C20
 #print axioms controller_no_deadlock
 #print axioms controller_progress
 #print axioms join_first_deadlocks
+#print axioms kwLookup_merge
+#print axioms fixed_keys_win
+#print axioms other_keys_from_chain
